@@ -570,7 +570,12 @@ impl<'a> Lexer<'a> {
     fn consume_number(&mut self, first: char) -> Result<f64> {
         let mut position = self.position;
         let len = self.len;
-        let mut chars = first.to_string();
+        // `first` is a digit or the decimal separator of the locale (`.5`, `,5`)
+        let mut chars = if first.is_ascii_digit() {
+            first.to_string()
+        } else {
+            ".".to_string()
+        };
         // numbers before the decimal point
         while position < len {
             let x = self.chars[position];
